@@ -77,6 +77,8 @@ PARAM_FORMS = [
     Form("Option<SSl<'x>>", 1, lambda l: "Option<SSl<%s>>" % _lt(l[0]), lambda l: [("struct", "a", l[0])], optional=True),
     Form("SSl2<'x,'y>", 2, lambda l: "SSl2<%s, %s>" % (_lt(l[0]), _lt(l[1])),
          lambda l: [("struct", "a", l[0]), ("struct", "b", l[1])]),
+    # `Self` behind a reference in a non-receiver position (only inside `impl<'y> OpL<'y>`; the second hole is the impl lifetime)
+    Form("&'x Self", 2, lambda l: "&%s Self" % _lt(l[0]), lambda l: [("opaque", None, l[0]), ("opaque", None, l[1])], lambda l: [(l[1], l[0])]),
     Form("&'static Op", 0, lambda l: "&'static Op", lambda l: [], static_only=True),
     Form("&'static str", 0, lambda l: "&'static str", lambda l: [], static_only=True),
     Form("u32", 0, lambda l: "u32", lambda l: []),
@@ -111,6 +113,8 @@ RET_FORMS = [
     Form("Result<S2b<'r,'s>, u8>", 2, lambda l: "Result<S2b<%s, %s>, u8>" % (_lt(l[0]), _lt(l[1])),
          lambda l: [("struct", "a", l[0]), ("struct", "b", l[1])], lambda l: [(l[1], l[0])]),
     Form("Result<&'r Op, ()>", 1, lambda l: "Result<&%s Op, ()>" % _lt(l[0]), lambda l: [("opaque", None, l[0])]),
+    # unit success: the only lifetime of the return type sits in the error arm
+    Form("Result<(), &'r Op>", 1, lambda l: "Result<(), &%s Op>" % _lt(l[0]), lambda l: [("opaque", None, l[0])]),
 ]
 
 S3_RET = Form("S3<'r,'s,'t>", 3, lambda l: "S3<%s, %s, %s>" % (_lt(l[0]), _lt(l[1]), _lt(l[2])),
@@ -122,6 +126,7 @@ SELF_FORMS = [
     ("&'x self on Op", "Op", 1),
     ("&'x self on OpL<'y>", "OpL", 2),
     ("self: SB<'x>", "SB", 1),
+    ("static on OpL<'y>", "OpL", 1),
 ]
 
 
@@ -144,20 +149,24 @@ class Sig:
     def impl_lts(self):
         if self.selff == "&'x self on OpL<'y>":
             return [self.self_l[1]]
-        if self.selff == "self: SB<'x>":
+        if self.selff in ("self: SB<'x>", "static on OpL<'y>"):
             return [self.self_l[0]]
         return []
 
     def owner(self):
-        return {"none": "Op", "&'x self on Op": "Op", "&'x self on OpL<'y>": "OpL", "self: SB<'x>": "SB"}[self.selff]
+        return {"none": "Op", "&'x self on Op": "Op", "&'x self on OpL<'y>": "OpL", "self: SB<'x>": "SB", "static on OpL<'y>": "OpL"}[self.selff]
 
     def render_method(self, name):
         impl = self.impl_lts()
         gens = []
+        where = []
         for l in self.lts:
-            if l in impl:
-                continue
             bs = sorted(s for (lo, s) in self.bounds if lo == l)
+            if l in impl:
+                # a bound on an impl lifetime cannot sit in the method's generics: it goes into a where clause
+                if bs:
+                    where.append("'%s: %s" % (l, " + ".join("'" + b for b in bs)))
+                continue
             gens.append("'%s%s" % (l, (": " + " + ".join("'" + b for b in bs)) if bs else ""))
         args = []
         if self.selff in ("&'x self on Op", "&'x self on OpL<'y>"):
@@ -166,8 +175,9 @@ class Sig:
             args.append("self")
         for i, (f, l) in enumerate(self.params):
             args.append("p%d: %s" % (i, f.text(l)))
-        return "pub fn %s%s(%s) -> %s { unimplemented!() }" % (
-            name, ("<" + ", ".join(gens) + ">") if gens else "", ", ".join(args), self.ret.text(self.ret_l))
+        return "pub fn %s%s(%s) -> %s%s { unimplemented!() }" % (
+            name, ("<" + ", ".join(gens) + ">") if gens else "", ", ".join(args), self.ret.text(self.ret_l),
+            (" where " + ", ".join(where)) if where else "")
 
     def impl_header(self):
         """impl header text; bounds whose longer side is an impl lifetime can only mention impl lifetimes."""
@@ -181,8 +191,11 @@ class Sig:
     def valid_rust(self):
         """bounds on impl lifetimes cannot be declared in the method generics (they would need a where clause):
         we only generate signatures where no declared bound has an impl lifetime as its longer side."""
-        impl = set(self.impl_lts())
-        return not any(lo in impl for (lo, _s) in self.bounds)
+        impl = self.impl_lts()
+        for f, l in self.params:
+            if f.name == "&'x Self" and not (self.owner() == "OpL" and impl and l[1] == impl[0]):
+                return False
+        return True
 
     # ---- reference model -------------------------------------------------------------------
     def all_inputs(self):
